@@ -324,7 +324,7 @@ def cmd_one(pid, seed, params):
     sc = Scratch()
     try:
         binp = prepare(sc, props[pid]["pkg"])
-        env = dict(ENV, VERIF_PROP=pid, VERIF_ONE=str(seed), VERIF_PARAMS=params, VERIF_FS=sc.fs, GOMAXPROCS="2", VERIF_TIER=os.environ.get("VERIF_TIER", "quick"), VERIF_TWICE=os.environ.get("VERIF_TWICE", ""), VERIF_PRE=os.environ.get("VERIF_PRE", ""), VERIF_DUMP=os.environ.get("VERIF_DUMP", ""))
+        env = dict(ENV, VERIF_PROP=pid, VERIF_ONE=str(seed), VERIF_PARAMS=params, VERIF_FS=sc.fs, GOMAXPROCS="2", VERIF_TIER=os.environ.get("VERIF_TIER", "quick"), VERIF_TWICE=os.environ.get("VERIF_TWICE", ""), VERIF_PRE=os.environ.get("VERIF_PRE", ""), VERIF_DUMP=os.environ.get("VERIF_DUMP", ""), VERIF_RCLOG=os.environ.get("VERIF_RCLOG", ""))
         r = subprocess.run([binp, "-test.run", TESTRE, "-test.count", "1"], env=env, cwd=sc.fs)
         return 0
     finally:
